@@ -514,7 +514,18 @@ def m_slice_range(ex, f, a):
     v = ex.deref(a[0]); r = a[1]
     if isinstance(v, Str):
         bs = v.chars
-        if any(is_sym(c) or c >= 0x80 for c in bs): raise Unsupported('str range index on non-ASCII/symbolic string')
+        if any(is_sym(c) for c in bs): raise Unsupported('str range index on a symbolic string')
+        if any(c >= 0x80 for c in bs):
+            # concrete non-ASCII text: byte offsets; an end inside a character is the `byte index is not a char boundary` panic of str indexing
+            raw = ''.join(chr(c) for c in bs).encode(); n = len(raw)
+            ty = r.ty if isinstance(r, Agg) else 'RangeFull'
+            lo = r.fields[0] if ty in ('Range', 'RangeFrom', 'RangeInclusive') else 0
+            hi = r.fields[1] if ty == 'Range' else (r.fields[1] + 1 if ty == 'RangeInclusive' else (r.fields[0] if ty == 'RangeTo' else (r.fields[0] + 1 if ty == 'RangeToInclusive' else n)))
+            if is_sym(lo): lo = ex.concretize(lo, 'range start')
+            if is_sym(hi): hi = ex.concretize(hi, 'range end')
+            if lo > hi or hi > n: raise Panic('slice index out of range')
+            try: return Str([ord(ch) for ch in raw[lo:hi].decode()])
+            except UnicodeDecodeError: raise Panic('byte index is not a char boundary')
         n = len(bs)
     else:
         bs = v.items if isinstance(v, PyVec) else v.fields; n = len(bs)
